@@ -726,6 +726,9 @@ func intValueFromInt(msg protoreflect.Message, val intable) (fhir.Base, error) {
 			}
 			intValue = protoreflect.ValueOfUint32(uint32(val.GetValue()))
 		default:
+			// Not an integer-valued field: nothing to normalize. Setting the zero
+			// protoreflect.Value would panic; the caller rejects the mismatched value.
+			return nil, nil
 		}
 		container.Set(valueField, intValue)
 		return container.Interface(), nil
